@@ -7,7 +7,11 @@ RULE = ('composites of 0-4 (thorough 0-8) scripted processes: timestep constant 
         'state, condition true/false/state-dependent; 1-4 run_for(interval, force)/update(interval) calls with '
         'intervals incl. 0 and ones the timesteps do not divide; dyadic times (1/16 grid). Observed: every '
         'next_update call (timestep, global time, front time, view), every application of an update (logging '
-        'updater), every emitted row, fronts after each call. Non-trivial: >=2 invocations; distinct by term.')
+        'updater), every emitted row, fronts after each call. Live stream: structural histories issued inside a running '
+        'engine (non-forced run) while sensors with timesteps 1-3 add to a counter outside their compartment: the '
+        'counter must equal the number of sensor updates that fell due while their process was registered (updates in '
+        'flight of deleted processes are dropped, every other one applied once). '
+        'Non-trivial: >=2 invocations; distinct by term.')
 ASSUMPTIONS = [
     'timesteps and intervals are multiples of 1/16 s below 2^10 so that every float operation of run_for is exact',
     'user process code is deterministic and does not mutate the states it is handed',
@@ -25,11 +29,30 @@ def generate(seed, tier, enlarged=False):
     cases = []
     for i in range(n):
         cases.append(sched.gen_case(rng, max_procs=4 if tier == 'quick' else 8, scripted=False))
+    # updates in flight when their process is deleted: the live stream (structural histories inside a running
+    # engine; sensors with timesteps 1-3 adding to a counter outside their compartment)
+    from harness import live
+    cases += [live.gen_case(rng) for _ in range(n // 6)]
     return cases
 
 
 def run(cases, tier='quick', seed=0):
-    return sched.run_family(__import__('harness.c01', fromlist=['x']), cases, seed, PROPS)
+    from harness import live
+    me = __import__('harness.c01', fromlist=['x'])
+
+    class Live:
+        __name__ = 'harness.live'
+        IMPORTS, CHECK_FN, BAD_TERM = live.IMPORTS, live.CHECK_FN, live.BAD_TERM
+        run_impl, render = staticmethod(live.run_impl), staticmethod(live.render)
+        oracle = staticmethod(live.oracle_inflight)
+        nontrivial, stat_key = staticmethod(live.nontrivial), staticmethod(live.stat_key)
+    return common.merge_streams(cases, [
+        (lambda c: c['kind'] == 'sched', lambda cs: sched.run_family(me, cs, seed, PROPS)),
+        (lambda c: c['kind'] == 'live', lambda cs: common.generic_run(Live, cs, seed, shard=20))])
 
 
-model_output = sched.model_output
+def model_output(case, ob):
+    if case['kind'] == 'live':
+        from harness import live
+        return common.coq_eval('LIVE', live.IMPORTS, 'model_out_all %s' % live.render(case, ob))[:4000]
+    return sched.model_output(case, ob)
